@@ -7,6 +7,14 @@ TRUST = ("TLC 1.8 evaluates the TLA+ judge; harness/lib.py projections (real obj
          "of abstract cases are trusted; bounds as stated in the evidence file")
 
 CHECKS = {
+ "C16": dict(
+    text="Resample.tla states resampling in exact rational arithmetic on trees whose segments are axis-parallel with integer lengths: the number of points "
+         "of a branch (ceil(L / spacing) + 1), each point as the rational point of the original polyline at its arc length (equal steps, or fixed steps with a "
+         "shorter last one), radii interpolated linearly along arc length, and the resampled tree as one chain per original branch between the unchanged "
+         "critical nodes. TLC generates every tree within the bounds with spacings, point counts, windows and root types; the executor runs IsometricResampler, "
+         "the assembler on the unresampled branch tree, the branch resamplers and the smoothers, and reports raw results; TLC decomposes the observed tree "
+         "into chains itself and matches them against the specified chains, checks total length, root type, and for smoothing exactly what the statement fixes",
+    design="4/C16", technique="TLA+ exact-rational specification of resampling + TLC exhaustive small-scope generation, replay into the code, TLC-judged raw results"),
  "C10": dict(
     text="Morph.tla defines every morphometric directly from the parent relation and integer lattice positions (segment lengths are integers; straight-line "
          "distances, tortuosity / contraction and all angles in exact squared or dot-product form): tree / branch / path lengths, length = sum of branch lengths, "
